@@ -126,11 +126,14 @@ class VLoop:
             # cancel leftovers so nothing outlives the case
             pending = [t for t in asyncio.all_tasks(self.loop) if not t.done()]
             for t in pending:
-                t.cancel()
+                try:
+                    t.cancel()
+                except RecursionError:      # (an await chain thousands of levels deep, left behind by a run-away case)
+                    pass
             if pending:
                 try:
-                    self.run(asyncio.gather(*pending, return_exceptions=True))
-                except Exception:
+                    self.run(asyncio.wait_for(asyncio.gather(*pending, return_exceptions=True), 5))
+                except BaseException:  # noqa
                     pass
         finally:
             u, t = self._saved
